@@ -519,6 +519,24 @@ def r2k(prog, rep):
             return False
         return True
     calls = [c for c in ls.calls if c.callee == root.name]      # on an inline view the spliced call is still listed, at its own block
+    # when the action arms are functions of their own (`step.apply_sell(..)`), the outermost function that builds adjustments is the
+    # whole Sell arm, entered for every sale: the examination proper is the first function below it whose call is entered on a
+    # NegDecimal test (its spliced call is listed on the view as well)
+    def has_loss_test(c):
+        for (sbb, discr, vals, neg) in ls.conditions_at(c.bb):
+            dl = mir.op_local(discr) if isinstance(discr, dict) and 'k' in discr else None
+            dd = ls.single_def(dl) if dl is not None else None
+            if dd and dd[2] == 'stmt' and dd[3]['r']['rv'] == 'discr' and re.search(NEG_TF, ls.ty.get(dd[3]['r']['pl']['l'], '') or ''):
+                return True
+        return False
+    if calls and not any(has_loss_test(c) for c in calls):
+        below = [g for g in prog.callees_closure([getattr(root, 'origin', root)]).values()
+                 if g.name != root.name and g.name.startswith('portfolio::bookkeeping::') and g.kind in ('Fn', 'AssocFn')]
+        for g in below:
+            deeper = [c for c in ls.calls if c.callee == g.name]
+            if deeper and any(has_loss_test(c) for c in deeper):
+                calls = deeper
+                break
     if not rep.anchor('call of the superficial-loss examination in the ledger step', calls):
         return
     for n, c in enumerate(calls, 1):
